@@ -49,8 +49,12 @@ def main():
                 r = sh("cd %s && VERIF_REPO=%s ./check %s --tier quick" % (VERIF, REPO, p))
                 lines = [l for l in r.stdout.decode().splitlines() if l.startswith(("VIOLATION", "MACHINERY"))]
                 row[p] = {"rc": r.returncode, "s": round(time.time() - t0), "first": lines[0][:230] if lines else ""}
-            print(json.dumps(row))
+            print(json.dumps(row), flush=True)
             results.append(row)
+            rp = os.path.join(HERE, "results.json")
+            allr = json.load(open(rp)) if os.path.exists(rp) else {}
+            allr[m["id"]] = {k: (v if not isinstance(v, dict) else {"exit": v["rc"], "first": v["first"][:160]}) for k, v in row.items() if k != "id"}
+            json.dump(allr, open(rp, "w"), indent=1, sort_keys=True)
         finally:
             sh("git -C %s checkout -- ." % REPO)
     missed = [r["id"] for r in results if not any(isinstance(v, dict) and v["rc"] == 1 for v in r.values())]
